@@ -69,6 +69,16 @@ def enc_pipes(pipes):
     return enc_list(pipes, lambda pg: [pg[0]] + enc_dag(pg[1]))
 
 
+CALLABLE_LAWS = False     # C07 variant: every scaling law handed over as an (anonymous) callable instead of its name
+
+
+def as_callable(seg):
+    """the same segment with its scaling law wrapped in a fresh closure (all of them are called '<lambda>'); a
+    Segment must behave exactly as with the named law"""
+    law = Segment.SCALING_FUNCS[seg.get('cpu_scaling', 'const')]
+    return dict(seg, cpu_scaling=(lambda f: (lambda n, secs: f(n, secs)))(law))
+
+
 class World:
     """A set of real Pipeline objects with the model's global operator numbering
     (pipeline k's operator with insertion index i has id first_k + i)."""
@@ -89,7 +99,7 @@ class World:
                 self.gid[op] = len(self.ops)
                 self.ops.append(op)
                 for s in (segs[k][i] if segs else [dict(baseline_cpu_seconds=1, storage_read_gb=1)]):
-                    op.add_segment(Segment(**s))
+                    op.add_segment(Segment(**as_callable(s) if CALLABLE_LAWS else s))
             self.pipes.append(p)
 
     def segs_of(self, gid):
